@@ -4,12 +4,17 @@
 
     SPEC <ver> <persist 0|1> <op> <op> …      op = K | X | R | C | <encoded inbound line>
 
-  (`C` = any controller call: no meaning for the tree.)  Output: one `<flag>@<tree>` per op,
+    CBT <ver> <kind> <persist> <op words> / <op words> / …     (ops in the wire format of `parseOp`)
+
+  (`C` = any controller call: no meaning for the tree.)  `CBT` runs the instrumented model
+  (Model/GatewayTraced.lean) and prints, per op, the tree recorded at each callback (`-` = no
+  callback), joined by `|` — compared with the tree the real callback reads from inside.  Output: one `<flag>@<tree>` per op,
   joined by `|`; flag = `r` rejected line, `0` / `1` accepted line without / with callback,
   `-` other ops; tree in the canonical persisted-projection text of harness/gw.py.
 -/
 import MySensors.Driver.GwCmd
 import MySensors.Model.SpecTree
+import MySensors.Model.GatewayTraced
 
 namespace MySensors.Driver
 open MySensors
@@ -44,8 +49,30 @@ def specTrace (c : ConstId) (persist : Bool) : SpecState → List Op → List St
     let s' := specOp c persist s op
     (specFlag c s op ++ "@" ++ showTree s'.tree) :: specTrace c persist s' ops
 
+/-- split a word list at the `/` separators -/
+def splitOps : List String → List (List String)
+  | [] => [[]]
+  | w :: ws =>
+    match splitOps ws with
+    | [] => [[w]]
+    | cur :: rest => if w == "/" then [] :: cur :: rest else (w :: cur) :: rest
+
+def parseOpWords : List String → Option Op
+  | [] => none
+  | cmd :: args => parseOp cmd args
+
+def cbtTrace : GW → List Op → List String
+  | _, [] => []
+  | g, op :: ops =>
+    let r := tstep g op
+    (if r.2.isEmpty then "-" else "&".intercalate (r.2.map showTree)) :: cbtTrace r.1.1 ops
+
 def specCmd (cmd : String) (args : List String) : Option String :=
   match cmd, args with
+  | "CBT", v :: k :: p :: ws => do
+    let g ← parseGw [v, k, p]
+    let ops ← ((splitOps ws).filter (fun o => !o.isEmpty)).mapM parseOpWords
+    some (if ops.isEmpty then "-" else "|".intercalate (cbtTrace g ops))
   | "SPEC", v :: p :: ws => do
     let c ← parseConst v
     let ops ← ws.mapM parseSpecOp
